@@ -24,7 +24,11 @@ type c08FloodCase struct {
 	Count  int    `json:"count"` // number of frames between the two halves of the message
 }
 
-func c08FloodOne(c *fw.Ctx, cs c08FloodCase) {
+func c08FloodOne(c *fw.Ctx, cs c08FloodCase) { c08FloodOneP(c, cs, "C08") }
+
+// c08FloodOneP: under C03 only delivery is judged (a valid stream with any number
+// of empty fragments / control frames inside a message yields the sender's message).
+func c08FloodOneP(c *fw.Ctx, cs c08FloodCase, prop string) {
 	c.Eval()
 	c.AddTraces(1)
 	desc := fmt.Sprintf("%+v", cs)
@@ -72,7 +76,7 @@ func c08FloodOne(c *fw.Ctx, cs c08FloodCase) {
 	defer conn.CloseNow()
 	r := c08ReadOne(conn, "reader")
 	if r.panicked != "" {
-		c.Violate("C08/panic", desc+": "+r.panicked, cs)
+		c.Violate(prop+"/panic", desc+": "+r.panicked, cs)
 		return
 	}
 	if r.guardFire {
@@ -81,10 +85,14 @@ func c08FloodOne(c *fw.Ctx, cs c08FloodCase) {
 	}
 	c.OutcomeStr(fmt.Sprintf("flood %v %s %s n=%d depth=%d", cs.Client, cs.Comp, cs.Kind, len(r.data), maxDepth-minDepth))
 	if r.err != nil || !bytes.Equal(r.data, msg) {
-		c.Violate("C08/within-limit-not-delivered/flood-"+cs.Kind, fmt.Sprintf("%s: a %d-byte message with %d %s between its two fragments was read as %d bytes, err=%v", desc, len(msg), cs.Count, cs.Kind, len(r.data), r.err), cs)
+		cls := "C08/within-limit-not-delivered/flood-" + cs.Kind
+		if prop == "C03" {
+			cls = fmt.Sprintf("C03/valid-stream-not-delivered/%s-inside-message/comp=%q", cs.Kind, cs.Comp)
+		}
+		c.Violate(cls, fmt.Sprintf("%s: a %d-byte message with %d %s between its two fragments was read as %d bytes, err=%v", desc, len(msg), cs.Count, cs.Kind, len(r.data), r.err), cs)
 		return
 	}
-	if maxDepth-minDepth > 64 {
+	if prop == "C08" && maxDepth-minDepth > 64 {
 		c.Violate("C08/memory-grows-with-frames-received/stack/"+cs.Kind, fmt.Sprintf("%s: the reading goroutine's call depth at transport reads went from %d to %d frames while %d %s arrived (%d bytes delivered): stack use grows with the number of frames received", desc, minDepth, maxDepth, cs.Count, cs.Kind, len(r.data)), cs)
 		return
 	}
@@ -106,7 +114,46 @@ func c08FloodCases(thorough bool) []c08FloodCase {
 	return out
 }
 
+// c03FloodCases: runs of 1..1000 empty fragments / control frames inside a message
+// (counts around 100, where a buffered reader gives up on empty reads).
+func c03FloodCases() []c08FloodCase {
+	var out []c08FloodCase
+	for _, client := range []bool{false, true} {
+		for _, comp := range []string{"", "no-takeover"} {
+			for _, kind := range []string{"pongs", "pings", "empty-fragments"} {
+				for _, n := range []int{1, 2, 50, 98, 99, 100, 101, 128, 300, 1000} {
+					out = append(out, c08FloodCase{Client: client, Comp: comp, Kind: kind, Count: n})
+				}
+			}
+		}
+	}
+	return out
+}
+
 func init() {
+	fw.Register(fw.Part{
+		Prop: "C03", Name: "runs",
+		Units: func(tier string) []fw.Unit {
+			return []fw.Unit{{ID: "cases", Run: func(c *fw.Ctx) {
+				cases := c03FloodCases()
+				for _, cs := range cases {
+					c08FloodOneP(c, cs, "C03")
+				}
+				c.AddStates(int64(len(cases)))
+				c.AddTransitions(int64(len(cases)))
+				c.Bound("run_cases", len(cases))
+				c.Sample(cases[5])
+			}}}
+		},
+		Replay: func(c *fw.Ctx, data json.RawMessage) {
+			var cs c08FloodCase
+			if json.Unmarshal(data, &cs) != nil {
+				c.EngineError("bad replay data")
+				return
+			}
+			c08FloodOneP(c, cs, "C03")
+		},
+	})
 	fw.Register(fw.Part{
 		Prop: "C08", Name: "flood",
 		Units: func(tier string) []fw.Unit {
